@@ -435,6 +435,58 @@ def impl_taps(case, nt):
     return p1, p2, N, taps
 
 
+_TAPS = {}
+
+
+def probe_tap_count(tau, raster_us, N):
+    """the tap count the implementation really uses, observed from outside: impulse response of safe_tau_lowpass
+    (alpha (1-alpha)^k for k < n, exactly 0 afterwards)"""
+    key = (tau, raster_us, N)
+    if key not in _TAPS:
+        from pypulseq.utils.safe_pns_prediction import safe_tau_lowpass
+        x = np.zeros(N)
+        x[0] = 1.0
+        y = np.asarray(safe_tau_lowpass(x, fl(tau), (raster_us / 1e6) * 1000))
+        nz = np.nonzero(y)[0]
+        _TAPS[key] = int(nz[-1]) + 1 if len(nz) else 0
+    return _TAPS[key]
+
+
+def tap_side_condition(ctx, case, nt, info):
+    """tap_count_ok of the theorems (C20_axis_error_under_tap_count), exact, on the implementation's own n"""
+    import translate
+    eps = translate.CONSTS.get('pns', {}).get('eps', Fraction(1, 10 ** 16))
+    p1, p2 = info['pads']
+    N = p1 + nt + p2 - 1
+    dtms = Fraction(case['raster_us'], 1000)
+    lines = []
+    for ax in AX:
+        for j, tau in enumerate(case['hw'][ax]['tau']):
+            n = probe_tap_count(tau, case['raster_us'], N)
+            if n != info['taps'][ax][j]:
+                ctx.count('taps.formula_differs_from_probe')
+                info['taps'][ax][j] = n
+            alpha = dtms / (Fraction(tau) + dtms)
+            r = 1 - alpha
+            ok = 1 <= n <= N and (n == N or r ** (n + 1) <= eps)
+            tight = n >= 1 and eps <= r ** (n - 1)
+            ctx.count('taps.%s' % ('full' if n == N else 'truncated'))
+            if not tight:
+                ctx.count('taps.more_than_needed')
+            if not ok:
+                ctx.fail('C20/tap-count', case, {'axis': ax, 'filter': j + 1, 'n': n, 'N': N, 'alpha': str(alpha),
+                                                 'eps': float(eps)})
+                return False
+            if n <= 200 and ctx.model_available and case['stream'] in ('tiny', 'small', 'corpus'):
+                lines.append(('pns.tapok %d %d %s' % (n, N, qtok(alpha)), ok, tight))
+    if lines:
+        outs = ctx.model([ln[0] for ln in lines])
+        for (ln, ok, tight), o in zip(lines, outs):
+            if o.split() != ['1' if ok else '0', '1' if tight else '0']:
+                ctx.mismatch('tapok', case, {'line': ln, 'model': o, 'harness': [ok, tight]})
+    return True
+
+
 def tolerances(case, gs, nt, taps, rel):
     """per-axis absolute tolerance: rel*peak + noise floor of the binary64 slew rate + exact FIR truncation bound"""
     dt = Fraction(case['raster_us'], 10 ** 6)
@@ -665,6 +717,8 @@ def one_case(ctx, case, with_model, mode, sample_it=False):
         ctx.count('fir.truncated')
     else:
         ctx.count('fir.full')
+    if not tap_side_condition(ctx, case, nt, info):
+        return
     if sample_it:
         ctx.sample({'raster_us': case['raster_us'], 'gamma': case['gamma'], 'blocks': case['blocks'], 'samples': nt,
                     'ok': ok, 'peak_norm': float(norm.max()), 'taps': info['taps'], 'pads': info['pads']})
@@ -710,6 +764,16 @@ def one_case(ctx, case, with_model, mode, sample_it=False):
         if mode == 0 and outs[0] != outs[1]:
             ctx.mismatch('calc.conv-vs-fast', case, {'note': 'the two proved-equal forms of the model differ'})
         ctx.count('model.%s' % ('conv+fast' if mode == 0 else 'fast'))
+        # the Coq SAFE reference [safe_axis] of the end-to-end theorem is the oracle's formula: exact equality
+        dt = Fraction(case['raster_us'], 10 ** 6)
+        sl = ['pns.safe %s %s %s %d %s' % (qtok(Fraction(case['gamma'])), qtok(dt), hw_toks(case['hw'][ax]), nt,
+                                           ' '.join(qtok(v) for v in info['gs'][ax])) for ax in AX]
+        for ax, o in zip(AX, ctx.model(sl)):
+            tk = Toks(o)
+            ref = tk.list(tk.q)
+            if ref != list(info['exact'][ax]):
+                ctx.mismatch('safe-reference', case, {'axis': ax, 'note': 'Coq safe_axis differs from the oracle formula'})
+                break
 
 
 def scale_blocks(blocks, c):
